@@ -278,6 +278,26 @@ def run(rep, tier):
                 rep.ok("C09.R3", fn, "handler: status_.store(0) -> event_.set() -> rethrow (another caller retries)")
             else:
                 rep.bad("C09.R3", fn, fn.loc, "handler-order", "the exception handler must reset status_ to 0, set the event and rethrow (found %s)" % names)
+        # the event protocol of one attempt: the winner re-arms the event (reset) before it runs the callable, and whoever ends the attempt sets it - a
+        # reset after that set (in the same attempt) takes the wake-up back before the woken callers have re-tested the flag: they sleep for ever
+        is_set = lambda e: e.get("k") == "call" and callee_short(e) == "set" and P(e.get("recv")) == "flag.event_"
+        is_rst = lambda e: e.get("k") == "call" and callee_short(e) == "reset" and P(e.get("recv")) == "flag.event_"
+        sets_ = set((b2, i2) for b2, i2, e in fn.all_events() if is_set(e))
+        after_set, _, _ = forward(fn, frozenset(), lambda st, e, pos: st | {"set"} if pos in sets_ else (frozenset() if (e.get("k") == "call" and callee_short(e) == "compare_exchange_strong") else st),
+                                  None, lambda a, b2: a | b2)
+        late = [e for b2, i2, e in fn.all_events() if is_rst(e) and "set" in (after_set.get((b2, i2)) or ())]
+        if late:
+            rep.bad("C09.R3", fn, loc_of(late[0]), "wakeup-withdrawn", "call_once resets the event after setting it within one attempt: event::set only makes the waiters runnable, each re-tests "
+                    "the flag when it runs - the reset lands first, they block again and (status_ is back to 0, nobody is running) nothing ever sets the event: callers blocked "
+                    "during a throwing attempt never return and never retry")
+        else:
+            rep.ok("C09.R3", fn, "the event is never reset after it was set within one attempt")
+        if precedes_on_all_paths(fn, is_rst, (b, i), reset_pred=lambda e: e.get("k") == "call" and callee_short(e) == "compare_exchange_strong", eh=False):
+            rep.ok("C09.R3", fn, "the winner re-arms the event before running the callable")
+        else:
+            rep.bad("C09.R3", fn, loc_of(ev), "event-not-rearmed", "the winner of the compare-exchange does not reset the event before it runs the callable: after an attempt that threw, the event "
+                    "is still set, so callers that should block while the retry runs return from event_.wait() at once and spin on the flag (with as many spinners as workers the "
+                    "retry - a suspended task - never gets a worker)")
         w = [(b2, i2, e) for b2, i2, e in fn.all_events() if e.get("k") == "call" and callee_short(e) == "wait" and P(e.get("recv")) == "flag.event_"]
         if len(w) == 1:
             fbw = ff.before.get((w[0][0], w[0][1])) or frozenset()
@@ -335,7 +355,6 @@ def run(rep, tier):
             rep.bad("C09.R4", fn, fn.loc, "wait-poll", "barrier::wait must poll 'phase.load(acquire) == old_phase' until false")
         # every way out of wait() has seen the poll fail (= the phase advanced): the untimed yield_while returned, or the
         # bounded busy wait reported success (yield_while_timeout returns true when the predicate became false, false on timeout)
-        from engine.core import forward
         flow = FactFlow(fn)
 
         def tr_(st, ev, pos):
